@@ -50,7 +50,7 @@ def qpath(path, qdir):
     return None, None
 
 
-BLANK = {"op": "", "t": 0, "n": 0, "c": 0, "d": 0, "a": 0, "k": "", "pos": 0, "s": 0, "to": 0, "m": 0, "ok": 0, "rc": [], "recs": [],
+BLANK = {"b": [], "atab": [], "pfx": [], "op": "", "t": 0, "n": 0, "c": 0, "d": 0, "a": 0, "k": "", "pos": 0, "s": 0, "to": 0, "m": 0, "ok": 0, "rc": [], "recs": [],
          "names": [], "tmo": 0, "lossy": 0, "conc": [], "announce": [], "status": 0, "extra": 0}
 
 
@@ -84,7 +84,7 @@ def sender_form(sender):
     return "plain", sender
 
 
-def project(trace, qdir, tables=None, dbto=b"postmaster@test.example"):
+def project(trace, qdir, tables=None, dbto=b"postmaster@test.example", pfx=b""):
     T = tables or Tables()
     out = []
     filedata = {}     # ino -> bytearray (content written by the processes we follow)
@@ -112,7 +112,7 @@ def project(trace, qdir, tables=None, dbto=b"postmaster@test.example"):
         if c == "ctl":
             op = e["op"]
             if op == "start":
-                ev("start", e, conc=e["conc"], announce=e["announce"], s=T.a(b""), d=T.a(b"#@[]"), a=T.a(dbto))
+                ev("start", e, conc=e["conc"], announce=e["announce"], s=T.a(b""), d=T.a(b"#@[]"), a=T.a(dbto), pos=e.get("life", 604800))
             elif op == "inject":
                 inj[e["pid"]] = {"sender": bytes.fromhex(e["sender"]), "rcpts": [bytes.fromhex(r) for r in e["rcpts"]]}
             elif op == "delcmd":
@@ -173,7 +173,10 @@ def project(trace, qdir, tables=None, dbto=b"postmaster@test.example"):
             buf[off:off + len(data)] = data
             if d == "bounce" and is_send:
                 m = re.match(rb"<(.*?)>:\n", data, re.S)
-                ev("note", e, n=T.n(n), a=T.a(m.group(1)) if m else 0)
+                na = m.group(1) if m else None
+                if na is not None and pfx and na not in T.addr and (pfx + b"-" + na) in T.addr:
+                    na = pfx + b"-" + na          # the record names the recipient without its virtual-domain prefix
+                ev("note", e, n=T.n(n), a=T.a(na) if na is not None else 0)
             if d in ("local", "remote"):
                 inode_of[(d, n)] = e["ino"]
         elif c == "write" and not e.get("reg") and is_send and e["res"] > 0 and e.get("fd") == 5:
@@ -224,7 +227,14 @@ def project(trace, qdir, tables=None, dbto=b"postmaster@test.example"):
                 names = [T.a(x) for x in nm]
                 sidx = T.a(ch["sender"])
                 to = T.a(ch["rcpts"][0]) if ch["rcpts"] else 0
-            ev("bounceq", e, n=T.n(orig) if orig else 0, ok=ok if ch else 0, m=m, s=sidx, to=to, names=names, extra=len(ch["rcpts"]) if ch else 0)
+            notice = []
+            if ch:
+                nl = body.find(b"\n")
+                msg = body[nl + 1:] if body.startswith(b"Received:") else body
+                sep = msg.find(b"--- Below this line is ")
+                notice = list(msg[:sep] if sep >= 0 else msg)
+            ev("bounceq", e, n=T.n(orig) if orig else 0, ok=ok if ch else 0, m=m, s=sidx, to=to, names=names, extra=len(ch["rcpts"]) if ch else 0,
+               b=notice, atab=[[v, list(k)] for k, v in T.addr.items()], pfx=list(pfx))
         elif c == "unlink" and e["res"] == 0:
             d, n = qpath(e["path"], qdir)
             if d == "bounce":
